@@ -13,7 +13,6 @@ import (
 
 	"github.com/plgd-dev/go-coap/v3/message/pool"
 	"github.com/plgd-dev/go-coap/v3/options"
-	"github.com/plgd-dev/go-coap/v3/udp"
 	udpClient "github.com/plgd-dev/go-coap/v3/udp/client"
 	"pgregory.net/rapid"
 
@@ -23,6 +22,7 @@ import (
 	"verif/memnet"
 	"verif/peer"
 	"verif/refcodec"
+	"verif/roles"
 	"verif/udpsrv"
 )
 
@@ -46,6 +46,8 @@ type Scenario struct {
 	// FailWrite > 0 (single request): the k-th transmission of the request fails in the socket
 	// (a transient error: nothing is sent, the attempt is used up)
 	FailWrite int `json:"failWrite,omitempty"`
+	// Role: "" a client connection; "server" the connection a dtls.NewServer creates for an accepted peer
+	Role string `json:"role,omitempty"`
 }
 
 type outcome struct {
@@ -85,7 +87,7 @@ func Exec(t *testing.T, sc Scenario, r *evid.Run) *evid.Failure {
 			link.A.FailWriteAt(sc.FailWrite)
 		}
 		var tk endpoints.Ticker
-		cli := endpoints.UDP(link.A, []udp.Option{
+		cli, stopRole, errRole := roles.Packet(sc.Role, link, bubble.Wait, []any{
 			options.WithMessagePool(pool.New(8, 2048)),
 			options.WithPeriodicRunner(tk.Runner()),
 			options.WithErrors(errs.Add),
@@ -97,6 +99,9 @@ func Exec(t *testing.T, sc Scenario, r *evid.Run) *evid.Failure {
 				cfg.GetToken = nil
 			}),
 		}...)
+		if errRole != nil {
+			panic(errRole)
+		}
 		start := time.Now()
 		var mu sync.Mutex
 		var wg sync.WaitGroup
@@ -236,6 +241,7 @@ func Exec(t *testing.T, sc Scenario, r *evid.Run) *evid.Failure {
 		wire = link.Log()
 		failedWrites = link.A.FailedWrites()
 		_ = cli.Close()
+		stopRole()
 		bubble.Wait()
 	})
 	if res.Panic != "" {
@@ -406,6 +412,9 @@ func gen(t *rapid.T) Scenario {
 		AckTimeoutMs:  rapid.SampledFrom([]int{100, 500, 2000, 3000}).Draw(t, "ack"),
 		MaxRetransmit: rapid.IntRange(0, 5).Draw(t, "maxre"),
 		NStart:        rapid.IntRange(1, 3).Draw(t, "nstart"),
+	}
+	if rapid.IntRange(0, 2).Draw(t, "role") == 0 {
+		sc.Role = "server"
 	}
 	ack := sc.AckTimeoutMs
 	n := rapid.SampledFrom([]int{1, 1, 1, 2, 3}).Draw(t, "nreq")
